@@ -25,7 +25,8 @@ RULE = ("case kinds: dataflow (generated design x scheduler x inputs: exact-once
         "explicit (template with seeded U<U, RD(x)<U, WR(x)>U constraints and inversions: every edge of the "
         "independently computed order graph holds), novar (signal-free constraint cycles must raise in all "
         "schedulers), methods (CL component with non-blocking methods and direct M(a)<M(b), U(x)<M(a), M(a)<U(x) "
-        "constraints: every caller block of a before every caller block of b); non-trivial = >=1 ordered pair actually checked (or an error expected and seen); "
+        "constraints: every caller block of a before every caller block of b), greenlet (wrapped blocks keep their "
+        "constraints), valcons (RD/WR value constraints on one signal declared by the owning child AND its parent); non-trivial = >=1 ordered pair actually checked (or an error expected and seen); "
         "distinct = case digest")
 TIERS = {"quick": {"runs": 1600, "budget_s": 100, "chunk": 4},
          "thorough": {"runs": 300000, "budget_s": 1800, "chunk": 8}}
